@@ -8,6 +8,7 @@
 package c08
 
 import (
+	"github.com/cloudwego/dynamicgo/vsync"
 	"bytes"
 	"context"
 	"fmt"
@@ -137,6 +138,20 @@ func convCaseP(cc *pj.ConvCase, unknown, primed bool) core.Case {
 				var out []byte
 				var cerr error
 				pi := core.Catch(func() { out, cerr = cv.Do(context.Background(), c.In, in) })
+				if pi == nil {
+					vsync.Controlled = true
+					vsync.Reset()
+					var o4 []byte
+					var e4 error
+					pi4 := core.Catch(func() { o4, e4 = cv.Do(context.Background(), c.In, append([]byte{}, in...)) })
+					vsync.Reset()
+					vsync.Controlled = false
+					if pi4 != nil {
+						add("p2j.Do", "fresh-pooled-objects|panic@"+pi4.Site+":"+core.PanicClass(pi4.Val), "panic: %s\ninput %x", pi4.Val, in)
+					} else if (e4 == nil) != (cerr == nil) || (e4 == nil && !bytes.Equal(o4, out)) {
+						add("p2j.Do", "differs-with-fresh-pooled-objects", "with the pooled objects of this process: %s err=%v\nwith fresh ones: %s err=%v\ninput %x", out, cerr, o4, e4, in)
+					}
+				}
 				if pi == nil && cerr == nil && poolpoison.Aliased(out) {
 					add("p2j.Do", "result-aliases-pooled-buffer", "the %d bytes returned by Do change when the buffers in the converters' pool are overwritten\ninput %x", len(out), in)
 				}
